@@ -1,12 +1,6 @@
 package main
 
 import (
-	"encoding/hex"
-	"fmt"
-	"math"
-	"math/big"
-	"sort"
-	"strconv"
 	"strings"
 
 	"verif/harness/core"
@@ -14,176 +8,36 @@ import (
 	"github.com/Chocapikk/pgread/pgdump"
 )
 
-// ---- the C05 oracle: does a float64 produced by the implementation equal an exact value? ----
+// Canonical text = core.CanonVal: float64 results are printed as their IEEE-754 bit pattern (math.Float64bits), so the
+// comparison with the model (which applies the correctly rounding reference conversion to the decimal text the code
+// builds) and with the spec (bits of the double nearest to the exact value) is exact: no tolerance, +0 and -0 differ,
+// NaN must be math.NaN()'s pattern.
 //
-// A hint is the canonical text of an exact number: "NaN", "+Inf", "-Inf" or "<sign><mant>e<exp>"
-// meaning sign·mant·10000^exp.  The float matches iff it is
-//   - bit-equal (up to the sign of zero) to the double nearest to the exact value when the mantissa is
-//     below 2^53 and |exp| ≤ 5 (every operation of computeNumeric is then exact except one correctly
-//     rounded multiplication/division: ≤ 12 significant digits and a representable power of 10000),
-//   - within maxUlps of that nearest double otherwise.
-const maxUlps = 2
-
-var two53 = new(big.Int).Lsh(big.NewInt(1), 53)
-
-func ordered(f float64) int64 {
-	b := int64(math.Float64bits(f))
-	if b < 0 {
-		b = math.MinInt64 - b
-	}
-	return b
-}
-
-func ulpDistance(a, b float64) uint64 {
-	x, y := ordered(a), ordered(b)
-	if x > y {
-		x, y = y, x
-	}
-	return uint64(y - x)
-}
-
-var ten12 = new(big.Int).Exp(big.NewInt(10), big.NewInt(12), nil)
-
-func matchesHint(f float64, hint string) bool {
-	switch hint {
-	case "NaN":
-		return math.IsNaN(f)
-	case "+Inf":
-		return math.IsInf(f, 1)
-	case "-Inf":
-		return math.IsInf(f, -1)
-	}
-	if len(hint) < 4 || math.IsNaN(f) {
-		return false
-	}
-	neg := hint[0] == '-'
-	e := strings.IndexByte(hint, 'e')
-	if e < 0 {
-		return false
-	}
-	mant, ok := new(big.Int).SetString(hint[1:e], 10)
-	exp, err := strconv.Atoi(hint[e+1:])
-	if !ok || err != nil {
-		return false
-	}
-	var nearest float64
-	switch {
-	case mant.Sign() == 0:
-		nearest = 0
-	case exp > 200: // beyond 10^800: overflows whatever the mantissa (≥ 1)
-		nearest = math.Inf(1)
-	case exp < -400 && len(hint) < 1000: // below 10^-1600·10^1000
-		nearest = 0
-	default:
-		p := new(big.Int).Exp(big.NewInt(10000), big.NewInt(int64(abs(exp))), nil)
-		r := new(big.Rat)
-		if exp >= 0 {
-			r.SetInt(new(big.Int).Mul(mant, p))
-		} else {
-			r.SetFrac(mant, p)
-		}
-		nearest, _ = r.Float64()
-	}
-	if neg {
-		nearest = -nearest
-	}
-	// C05: "exactly the nearest double for ordinary values of up to 12 significant digits" — at most 12 decimal digits
-	// in the mantissa (three base-10000 groups), any exponent of the quantified range (|weight| <= 16 and beyond: up to
-	// 10^±80); longer mantissas are held to "agrees to double precision" (maxUlps)
-	if (mant.Cmp(ten12) < 0 && abs(exp) <= 20) || (mant.Cmp(two53) < 0 && abs(exp) <= 5) {
-		return f == nearest
-	}
-	return f == nearest || ulpDistance(f, nearest) <= maxUlps
-}
-
-func abs(x int) int {
-	if x < 0 {
-		return -x
-	}
-	return x
-}
-
-// hintCursor hands out, for the k-th float leaf met while rendering, the k-th hint of each list.
-type hintCursor struct {
-	lists [][]string
-	k     int
-}
-
-func newCursor(lists ...string) *hintCursor {
-	c := &hintCursor{}
-	for _, l := range lists {
-		if l == "-" || l == "" {
-			continue
-		}
-		c.lists = append(c.lists, strings.Split(l, ","))
-	}
-	return c
-}
-
-func (c *hintCursor) number(f float64) string {
-	k := c.k
-	c.k++
-	for _, l := range c.lists {
-		if k < len(l) && matchesHint(f, l[k]) {
-			return "n" + l[k]
-		}
-	}
-	return fmt.Sprintf("d%016x", math.Float64bits(f))
-}
-
-// canonJ renders a decoded value in the canonical text of Driver/Fam/Numjson.lean.
-func canonJ(sb *strings.Builder, v interface{}, c *hintCursor) {
+// foldInts: in the families that have a SPEC column a Go int (DecodeNumeric returns int(0) for a numeric stored without
+// digits) is read as the float64 of the same value — property C05 speaks of the decoded NUMBER, not of its Go kind.  The
+// Lean side does the same (Spec.numAsF64).  The *_raw families do NOT fold: there model and implementation are compared
+// with kinds (i0 vs d0000000000000000).
+func foldInts(v interface{}) interface{} {
 	switch x := v.(type) {
-	case nil:
-		sb.WriteString("~")
-	case bool:
-		if x {
-			sb.WriteString("T")
-		} else {
-			sb.WriteString("F")
-		}
-	case int: // DecodeNumeric's `return 0`
-		sb.WriteString(c.number(float64(x)))
-	case float64:
-		sb.WriteString(c.number(x))
-	case string:
-		sb.WriteString("s")
-		sb.WriteString(hex.EncodeToString([]byte(x)))
+	case int:
+		return float64(x)
 	case []interface{}:
-		sb.WriteString("[")
+		out := make([]interface{}, len(x))
 		for i, e := range x {
-			if i > 0 {
-				sb.WriteString(",")
-			}
-			canonJ(sb, e, c)
+			out[i] = foldInts(e)
 		}
-		sb.WriteString("]")
+		return out
 	case map[string]interface{}:
-		keys := make([]string, 0, len(x))
-		for k := range x {
-			keys = append(keys, k)
+		out := make(map[string]interface{}, len(x))
+		for k, e := range x {
+			out[k] = foldInts(e)
 		}
-		sort.Strings(keys)
-		sb.WriteString("{")
-		for i, k := range keys {
-			if i > 0 {
-				sb.WriteString(",")
-			}
-			sb.WriteString(hex.EncodeToString([]byte(k)))
-			sb.WriteString(":")
-			canonJ(sb, x[k], c)
-		}
-		sb.WriteString("}")
-	default:
-		fmt.Fprintf(sb, "?%T(%v)", v, v)
+		return out
 	}
+	return v
 }
 
-func showJ(v interface{}, hints ...string) string {
-	var sb strings.Builder
-	canonJ(&sb, v, newCursor(hints...))
-	return sb.String()
-}
+func showJ(v interface{}) string { return core.CanonVal(foldInts(v)) }
 
 // entry points: 0 DecodeNumeric, 1 DecodeType(numeric), 2 ParseJSONB, 3 DecodeType(jsonb)
 func call(via int, blob []byte) interface{} {
@@ -200,27 +54,26 @@ func call(via int, blob []byte) interface{} {
 }
 
 func init() {
-	// numhdr: args = blobs (comma separated hex), hints (comma separated); every blob through DecodeNumeric
+	// numhdr: args = blobs (comma separated hex); every blob through DecodeNumeric
 	core.Register("numhdr", func(args []string) string {
 		blobs := strings.Split(args[0], ",")
-		hints := strings.Split(args[1], ",")
 		out := make([]string, len(blobs))
 		for i, b := range blobs {
-			out[i] = showJ(pgdump.DecodeNumeric(core.Unhex(b)), hints[i])
+			out[i] = showJ(pgdump.DecodeNumeric(core.Unhex(b)))
 		}
 		return strings.Join(out, ";")
 	})
-	// numeric: args = via (0 DecodeNumeric, 1 DecodeType(1700), 2/3 ParseJSONB), blob, hint
+	// numeric: args = via (0 DecodeNumeric, 1 DecodeType(1700), 2/3 ParseJSONB), blob
 	numericH := func(args []string) string {
 		via := core.Atoi(args[0])
 		if via >= 2 {
 			via = 2
 		}
-		return showJ(call(via, core.Unhex(args[1])), args[2:]...)
+		return showJ(call(via, core.Unhex(args[1])))
 	}
 	core.Register("numeric", numericH)
 	core.Register("numround", numericH) // same entry points, generator sweeps the decimal exponent (<= 12 digits)
-	// jsonb: args = via (0 ParseJSONB, 1 DecodeType(3802)), blob, hints of the spec [, hints of the model]
+	// jsonb: args = via (0 ParseJSONB, 1 DecodeType(3802)), blob
 	// DecodeType's fallback (the input itself as a string, invalid UTF-8 replaced by '.') is rendered as the
 	// raw input, which is how the model renders it.
 	core.Register("jsonb", func(args []string) string {
@@ -230,15 +83,15 @@ func init() {
 		if str, ok := v.(string); ok && via == 3 && str == strings.ToValidUTF8(string(blob), ".") {
 			v = string(blob)
 		}
-		return showJ(v, args[2:]...)
+		return showJ(v)
 	})
 	// malformed families: args = via, blob; "ok" unless the call panics (the harness catches it)
 	robust := func(args []string) string {
 		call(core.Atoi(args[0]), core.Unhex(args[1]))
 		return "ok"
 	}
-	// raw families: args = via, blob, hints of the model; value-level comparison with the model on
-	// malformed input.  DecodeType(jsonb)'s fallback (the input itself as a string, invalid UTF-8
+	// raw families: args = via, blob; value-level comparison with the model on malformed input, Go kinds
+	// included (no foldInts).  DecodeType(jsonb)'s fallback (the input itself as a string, invalid UTF-8
 	// replaced by '.') is rendered as the raw input, which is how the model renders it.
 	raw := func(args []string) string {
 		via := core.Atoi(args[0])
@@ -247,7 +100,7 @@ func init() {
 		if str, ok := v.(string); ok && via == 3 && str == strings.ToValidUTF8(string(blob), ".") {
 			v = string(blob)
 		}
-		return showJ(v, args[2:]...)
+		return core.CanonVal(v)
 	}
 	core.Register("numeric_raw", raw)
 	core.Register("jsonb_raw", raw)
